@@ -31,7 +31,8 @@ deriving Repr, DecidableEq, Inhabited
 
 /-- One HTTP exchange as seen by `uploadToKeepServer`. -/
 inductive Http
-  /-- `Do` returned an error (connection refused, timeout, request body failed, ...) -/
+  /-- `Do` returned an error, whatever its kind: connection refused, reset, no route, timeout,
+  unexpected EOF, request body failed, ... — `uploadToKeepServer` does not look at the error -/
   | connErr
   /-- a response: status code, value of `X-Keep-Replicas-Stored` (`none` = absent or empty),
   the bytes the body delivers, and whether the body then fails with a non-EOF error -/
@@ -390,5 +391,16 @@ def discoverURIs (uris : List (List Char)) : Roots :=
 /-- `discoverServices` otherwise: the "accessible" keep_services list of the API server (through the
 per-host cache) goes to `loadKeepServers` of a fresh client. -/
 def discoverAPI (l : List Svc) : Roots := load false l
+
+/-- A long-lived client is given service lists one after the other (a second
+`LoadKeepServicesFromJSON`, a refreshed discovery answer): every load rebuilds the maps and
+`replicasPerService` from its list alone; only `foundNonDiskSvc` is sticky. -/
+def reload (nd0 : Bool) : List (List Svc) → Roots
+  | [] => { listed := [], locals := [], writable := [], gateways := [], rps := 1, nonDisk := nd0 }
+  | [l] => load nd0 l
+  | l :: rest => reload (load nd0 l).nonDisk rest
+
+/-- everything a client holds after a load, except the sticky `foundNonDiskSvc` -/
+def Roots.core (r : Roots) := (r.listed, r.locals, r.writable, r.gateways, r.rps)
 
 end ArvVerif.C11
